@@ -8,6 +8,7 @@ import KojenVerif.Model.Dispatch
 import KojenVerif.Model.EmitPy
 import KojenVerif.Model.EmitCs
 import KojenVerif.Model.EmitSml
+import KojenVerif.Model.PyQueue
 /-
   Line-protocol driver: one JSON object per input line, one JSON object per output line.
   Run with `lake env lean --run Driver/Main.lean`.  The harness pipes the same inputs to the
@@ -275,6 +276,45 @@ def handle (j : Json) : Except String Json := do
                       ("states", jStrs (Table.states t)), ("events", jStrs (Table.events t)),
                       ("actions", jStrs (Table.actions t)), ("guards", jStrs (Table.guards t)),
                       ("sigs", Json.arr ((Table.actionSigs t).map (fun p => Json.arr #[jStr p.1, jStr p.2])).toArray)])
+  | "pyqueue" => do
+    let totals ← (← j.getObjVal? "totals").getArr?
+    let tl ← totals.toList.mapM (fun x => x.getNat?)
+    let cbTotal ← (← j.getObjVal? "cbTotal").getNat?
+    let labs ← (← j.getObjVal? "labels").getArr?
+    let parseLabel (x : Json) : Except String PyQueue.Label := do
+      let a ← x.getArr?
+      match a.toList with
+      | [k] => do
+        match (← k.getStr?) with
+        | "wGet" => pure .wGet
+        | "wCb" => pure .wCb
+        | "wEnd" => pure .wEnd
+        | "stopCall" => pure .stopCall
+        | "stopJoin" => pure .stopJoin
+        | o => throw s!"label {o}"
+      | [k, p] => do
+        let n ← p.getNat?
+        match (← k.getStr?) with
+        | "trig" => pure (.trig n)
+        | "syncBegin" => pure (.syncBegin n)
+        | "syncEnd" => pure (.syncEnd n)
+        | o => throw s!"label {o}"
+      | _ => throw "label"
+    let ls ← labs.toList.mapM parseLabel
+    let rec go (s : PyQueue.St) (ls : List PyQueue.Label) (i : Nat) : PyQueue.St × Option Nat :=
+      match ls with
+      | [] => (s, none)
+      | l :: rest => match PyQueue.step s l with
+        | some s' => go s' rest (i + 1)
+        | none => (s, some i)
+    let r := go (PyQueue.init (fun p => tl.getD p 0) cbTotal) ls 0
+    let jSrc : PyQueue.Src → Json
+      | some p => Json.num (JsonNumber.fromNat p)
+      | none => Json.str "cb"
+    pure (Json.mkObj [("failed_at", match r.2 with | some i => Json.num (JsonNumber.fromNat i) | none => Json.null),
+                      ("begun", Json.arr (r.1.begun.map (fun e => Json.arr #[jSrc e.1, Json.num (JsonNumber.fromNat e.2)])).toArray),
+                      ("alive", Json.bool r.1.alive), ("queue_len", Json.num (JsonNumber.fromNat r.1.queue.length)),
+                      ("stopper", Json.str (match r.1.stopper with | .notCalled => "notCalled" | .joining => "joining" | .returned => "returned"))])
   | "runref" => do
     let t ← parseRows (← j.getObjVal? "tt")
     let silent ← getBool j "silent"
